@@ -256,3 +256,28 @@ func DebugConv(p *core.Program, tag string) {
 	cl := tbl.For(tag)
 	fmt.Println(cl.Sig)
 }
+
+// DebugLoops prints loops of analysis units without a recognised variant (developer tool).
+func DebugLoops(p *core.Program) {
+	c := core.NewCanon(p)
+	reach := p.ReachableFrom(p.EntryPoints()...)
+	kinds := map[string]int{}
+	anc := func(f *ssa.Function) bool { return core.IsAncestorFn(f) }
+	for _, u := range units(p) {
+		if !reach[p.Original(u)] {
+			continue
+		}
+		loops, red := core.NaturalLoops(u)
+		if !red {
+			fmt.Println("IRREDUCIBLE", unitName(p, u))
+		}
+		for _, l := range loops {
+			v := c.TerminationOf(l, anc)
+			kinds[v.Kind]++
+			if v.Kind == "" {
+				fmt.Printf("%s\t%s\t%s\n", unitName(p, u), shortVal(v.Desc), v.Reason)
+			}
+		}
+	}
+	fmt.Println(kinds)
+}
